@@ -318,6 +318,14 @@ def main(argv):
                                     transformations=r.get("transformations", []),
                                     harnesses=[dict(name=h["name"], status=h["status"], wall_s=h.get("wall_s"), covers=h.get("covers"), from_cache=bool(h.get("from_cache"))) for h in r["harnesses"]]))
             trusted.add("kani stub environment: kani/%s/src/main.rs" % k)
+            # the items whose verbatim text the stub crate compiles are "under contract" too: their obligations are the
+            # harness assertions (callee contracts = the stubs); listed so that the evidence names every function checked
+            all_ok = all(h["status"] == "SUCCESSFUL" for h in r["harnesses"])
+            all_complete = all(h.get("complete") for h in r["harnesses"])
+            for it in r.get("extracted", []):
+                fns_under_contract.append(dict(name="%s (kani unit %s)" % (it.get("item"), k), file=it.get("file"), lines=[it.get("line"), it.get("line")],
+                                               backend="kani/cbmc", discharged=bool(all_ok), contract=True,
+                                               bounded=not all_complete))
             for h in r["harnesses"]:
                 entry = dict(name="%s::%s" % (k, h["name"]), bound=h.get("bound", ""), result=h["status"],
                              backend="kani/cbmc", wall_s=h.get("wall_s"), complete=h.get("complete", False),
